@@ -2,6 +2,7 @@
 import checks_stream
 import checks_noise
 import checks_keyring
+import checks_cli
 
 CHECKS = {
     "C01": checks_stream.c01,
@@ -12,8 +13,13 @@ CHECKS = {
     "C06": checks_noise.c06,
     "C07": checks_noise.c07,
     "C08": checks_noise.c08,
+    "C09": checks_cli.c09,
     "C10": checks_stream.c10,
+    "C12": checks_cli.c12,
+    "C13": checks_cli.c13,
+    "C14": checks_cli.c14,
     "C15": checks_keyring.c15,
+    "C16": checks_cli.c16,
     "C17": checks_keyring.c17,
     "C11": checks_stream.c11,
 }
